@@ -31,7 +31,7 @@ CLAIMED = {
  "C01": P("Whole-parser Gallina model with explicit Panic/Hang/OutOfFuel results; every generated/adversarial document under random plugin subsets, orders and nesting limits must parse, walk and render (HTML, XHTML, recording renderer) without panic, abort or hang in debug and release builds, and agree with the model on tree, ranges, HTML and events." + PENDING % "C01", "DESIGN.md section 6 C01", category="exploration", technique=TECH_X),
  "C02": P("Nesting families at 1x..200x the limit under limits {0,1,2,3,10,100}: tree depth (emphasis wrappers not counted) <= 3*limit+4, measured recursion gauge (hook) <= limit+2, recursive walk returns; emphasis-only excess is the open known finding F3; model/implementation correspondence on the same inputs." + PENDING % "C02", "DESIGN.md section 6 C02", category="exploration", technique=TECH_X),
  "C03": P("Machine-checked Coq proofs: escape_html leaves no raw '<', '>' or double quote and is lossless for a reader decoding the four entities (all byte strings); text events and attribute names/values reach the output only through it, values always double-quoted (chunk structure of the serializer, see C19). NOT proved yet: that the parser never produces raw-HTML nodes without the HTML plugins, and proper nesting of the emitted elements; these are decided on every run by a strict reader of the renderer's output language applied to the implementation's HTML/XHTML for hostile and generated input under random plugin sets without the HTML plugins, and by the correspondence with the whole-parser model.", "DESIGN.md section 6 C03"),
- "C04": P("Scheme x obfuscation x link-syntax table plus generated documents: every href/src, read the way a browser reads it, is not javascript/vbscript/file/data (image whitelist excepted); normalize_link/validate_link unit correspondence; model/implementation correspondence." + PENDING % "C04", "DESIGN.md section 6 C04", category="exploration", technique=TECH_X),
+ "C04": P("Machine-checked Coq proofs of the pipeline every destination goes through, for every byte string: a normalised link is printable ASCII only (side condition on the safe set, checked on the generated constant), what a browser reads from the escaped attribute (entities decoded, leading C0/space stripped, tab/LF/CR removed) is exactly the normalised link, validate_link on ASCII text is exactly 'does not start, in any letter case, with vbscript:/javascript:/file:/data: unless data:image/(gif|png|jpeg|webp);' (verdict of the modelled regex engine), hence a validated link is not dangerous when the browser reads it. NOT proved: that every Link/Image/Autolink url in a parse result went through this pipeline and that rejected constructs stay text; decided on every run by the browser-scheme oracle on the implementation's HTML for scheme x obfuscation x link-syntax tables and generated documents, norm/valid unit commands, and the model/implementation correspondence.", "DESIGN.md section 6 C04"),
  "C05": P("Range oracle (validity, boundaries, root, nesting, sibling order, faithful Text/TextSpecial) on every node of generated documents biased to tabs, multi-byte text, CR/CRLF and nested inline content; model/implementation correspondence on every range." + PENDING % "C05", "DESIGN.md section 6 C05", category="exploration", technique=TECH_X),
  "C06": P("Metamorphic relations on tab-free documents: '> '-prefixing gives the blockquote wrapper and shifts every range by the inserted bytes; placing D in a loose list item gives the list wrapper; model/implementation correspondence on all three parses." + PENDING % "C06", "DESIGN.md section 6 C06", category="exploration", technique=TECH_X),
  "C07": P("Machine-checked Coq proofs over the whole-parser model in which the parser's interior-mutable caches (compiled chain of the three rulers, lazily chosen text scanner) are explicit state and all per-document state is created inside parse: a parser with warm caches returns what the same configuration with cold caches returns and keeps configuration and cache coherence; hence for every configuration history and every sequence of documents already parsed, the next parse returns exactly what a freshly built parser with the same configuration returns (unbounded in number and size of documents). Tied to /repo on every run by histories of 2..12 documents on one instance vs fresh instances (tree, HTML, XHTML; documents built to poison caches: reference definitions/look-ups, backtick runs, huge bracket spans, low-byte colliding characters) and by the model/implementation correspondence on those histories.", "DESIGN.md section 6 C07"),
